@@ -28,6 +28,7 @@ RULE = (
     "density 4 I/(K0 L), screening kernel prefactor); non-trivial = the two unit systems differ and >= 3 updates were compared on a "
     "driven run; distinct = scenario digests"
 )
+LIFECYCLES = {}  # shared object life cycles (scen.add_lifecycles) with their default rates
 BUDGET = {"quick": {"runs": 300, "chunk": 6}, "thorough": {"runs": 30000, "chunk": 10}}
 COMPONENTS = {"real": ["unit handling via pint in TDGLSolver/Device/sources/Solution", "screening prefactor", "Solution.current_density"], "stub": ["wall clock"]}
 ASSUMPTIONS = ["Run-level part only; unit conversion of post-processing (fields from currents) belongs to C20, which is not applicable to this technique."]
